@@ -45,6 +45,8 @@ type World struct {
 	topContract   *Contract
 	splits        []Term
 	quantFacts    []quantFact
+	muted         int
+	forcedNext    map[*ssa.Next]*Val
 	loopTargets   map[string][]loopTarget
 	loopWhole     map[string]bool
 	axioms        []axiomLine
@@ -68,6 +70,8 @@ func newWorld(l *Loaded, specs *Specs) *World {
 		heapSort: map[string]Sort{}, heapRef: map[string]bool{}, assumps: map[string]bool{}, fnIDs: map[*ssa.Function]int{}, fnByID: map[int]*ssa.Function{},
 		closures: map[string]*FnVal{}, callOrd: map[string]int{}, dynOf: map[string]*Val{}, implFacts: map[string]types.Type{},
 		ranges: map[*ssa.Range]*rangeState{}, rangeKey: map[*ssa.Range]string{}, inlined: map[string]bool{}, usedContracts: map[string]*Contract{}}
+	w.heapSort["MapLen"] = arraySort(SInt, SInt)
+	w.heapSort[allocKey] = SInt
 	w.preAdd("Iface", "(declare-datatypes ((Iface 0)) (((mkI (itag Int) (ival Int)))))")
 	w.preAdd("Slice", "(declare-datatypes ((Slice 0)) (((mkSlice (sarr Int) (soff Int) (slen Int) (scap Int)))))")
 	// fixed tags for the basic types so that model axioms can name them
@@ -768,6 +772,9 @@ func (w *World) skolemGoal(env *CEnv, e *CExpr) Term {
 func (w *World) oblige(kind, label string, cond, goal Term, star bool, props []string) *Obligation {
 	o := &Obligation{Name: w.curFn + "#" + label, Func: w.curFn, Label: label, Kind: kind, Star: star, Props: props,
 		Goal: implies(cond, goal), Mark: w.sc.mark(), Expect: "unsat"}
+	if w.muted > 0 {
+		return o // re-execution of code whose obligations are generated elsewhere
+	}
 	w.obls = append(w.obls, o)
 	return o
 }
